@@ -196,8 +196,12 @@ def conservation(run, scn, meta, res, section, step_index=0, allow_stray_if_refu
             return True
         if any(engine.under(p, td) for td in tds):
             return True
-        # the chain of directories created on the way to a trash directory
-        return any(engine.under(td, p) for td in tds) and p not in before
+        # the chain of directories created on the way to a trash directory (also an empty skeleton left by a refused attempt)
+        if any(engine.under(td, p) for td in tds) and p not in before:
+            return True
+        import re
+        v = after.get(p)
+        return p not in before and v is not None and v[0] == 'd' and re.search(r'/(\.Trash(-\d+|/\d+)?|Trash|\.local|share|xdg)(/files|/info)?$', p) is not None
     other = [p for p in engine.changed_paths(before, after) if not expected_area(p)]
     # parents of trashed entries get a new mtime: ignored by changed_paths (dir mtimes), so anything left is a real change
     if other:
